@@ -12,6 +12,7 @@ pub mod c08;
 pub mod c08_net;
 pub mod c09;
 pub mod c09_net;
+pub mod c10;
 pub mod routerkit;
 pub mod c11;
 pub mod c12;
@@ -153,6 +154,20 @@ pub fn all() -> Vec<PropDef> {
             run: c09::run,
             replay: c09::replay,
             child: None,
+        },
+        PropDef {
+            id: "C10",
+            level: "fault_enumeration",
+            rule: c10::RULE,
+            assumptions: &[
+                "crash points are the verif-hooks probe points on the commit path; a crash is _exit() from inside the probe (no destructors), plus unhooked SIGKILLs at generated times",
+                "power-loss durability of sync_all is not observable here; only its position before the rename",
+                "a temp .svspart file may remain after a process kill (the property only forbids it for in-process failures)",
+                "scratch files live under /verif/harness/target/scratch",
+            ],
+            run: c10::run,
+            replay: c10::replay,
+            child: Some(c10::child),
         },
         PropDef {
             id: "C11",
